@@ -1,6 +1,6 @@
 (* C09Proofs.v — what acceptance by the front-end model implies (soundness of validation),
    rule by rule, and machine-checked witnesses for the rules it does not enforce. *)
-Require Import Base Syntax Front Plan.
+Require Import Base Syntax Front Plan gen.CounterFacts.
 Require Import spec.Spec_C09 spec.Spec_Numbering proofs.GatherProofs proofs.C07Proofs proofs.NumberingProofs proofs.C02Proofs.
 Open Scope N_scope.
 
@@ -18,21 +18,21 @@ Definition abs_param (p : mparam) : rparam :=
 
 (* ---- per-parameter checks of the interface verifier ---- *)
 
-Lemma check_param_unbounded p r : check_param p = Ok r ->
+Lemma check_param_unbounded s p r : check_param_gen s p = Ok r ->
   (match rp_kind (abs_param p), rp_arr (abs_param p) with KObj, Some None => false | _, _ => true end) = true.
 Proof.
-  unfold check_param, abs_param, kind_of. cbn [rp_kind rp_arr].
+  unfold check_param_gen, abs_param, kind_of. cbn [rp_kind rp_arr].
   destruct (mp_shape p) as [|cnt]; [destruct (mp_ty p); try reflexivity; now destruct (contains_interfaces _)|].
   destruct (mp_ty p) as [|q|n|sn fs]; cbn [is_miface is_struct_or_prim is_mstruct]; try reflexivity.
   - destruct cnt; [reflexivity | discriminate].
   - destruct (contains_interfaces _); reflexivity.
 Qed.
 
-Lemma check_param_bounded_data p r : check_param p = Ok r ->
+Lemma check_param_bounded_data s p r : check_param_gen s p = Ok r ->
   (match rp_kind (abs_param p), rp_arr (abs_param p) with
    | KData, Some (Some _) => false | _, _ => true end) = true.
 Proof.
-  unfold check_param, abs_param, kind_of. cbn [rp_kind rp_arr].
+  unfold check_param_gen, abs_param, kind_of. cbn [rp_kind rp_arr].
   destruct (mp_shape p) as [|cnt]; [destruct (mp_ty p); try reflexivity; now destruct (contains_interfaces _)|].
   destruct (mp_ty p) as [|q|n|sn fs]; cbn [is_miface is_struct_or_prim is_mstruct andb]; try reflexivity.
   - destruct cnt; [discriminate | reflexivity].
@@ -41,19 +41,19 @@ Proof.
     + rewrite !andb_false_r. destruct cnt; [discriminate | reflexivity].
 Qed.
 
-Lemma check_param_out_objstruct p r : check_param p = Ok r -> mp_out p = true ->
+Lemma check_param_out_objstruct s p r : check_param_gen s p = Ok r -> mp_out p = true ->
   (match rp_kind (abs_param p), rp_arr (abs_param p) with KObjStruct, Some _ => false | _, _ => true end) = true.
 Proof.
-  unfold check_param, abs_param, kind_of. cbn [rp_kind rp_arr]. intros H Ho. rewrite Ho in H.
+  unfold check_param_gen, abs_param, kind_of. cbn [rp_kind rp_arr]. intros H Ho. rewrite Ho in H.
   destruct (mp_shape p) as [|cnt]; [destruct (mp_ty p); try reflexivity; now destruct (contains_interfaces _)|].
   destruct (mp_ty p) as [|q|n|sn fs]; cbn [is_miface is_struct_or_prim is_mstruct andb] in *; try reflexivity.
   destruct (contains_interfaces (MStruct sn fs)); [discriminate | reflexivity].
 Qed.
 
-Lemma check_param_flags p a v : check_param p = Ok (a, v) ->
+Lemma check_param_flags s p a v : check_param_gen s p = Ok (a, v) ->
   a = is_objarr (abs_param p) /\ v = is_objval (abs_param p).
 Proof.
-  unfold check_param, abs_param, kind_of, is_objarr, is_objval. cbn [rp_kind rp_arr].
+  unfold check_param_gen, abs_param, kind_of, is_objarr, is_objval. cbn [rp_kind rp_arr].
   destruct (mp_shape p) as [|cnt].
   - intro H. inversion H; subst. destruct (mp_ty p); cbn; try (split; reflexivity).
     destruct (contains_interfaces _); split; reflexivity.
@@ -67,8 +67,8 @@ Qed.
 
 (* the walk over the parameters accumulates "seen an object array / a single object"
    per direction and rejects the combination *)
-Lemma check_params_spec ps : forall ai vi ao vo,
-  check_params ps ai vi ao vo = Ok tt ->
+Lemma check_params_spec two s ps : forall ai vi ao vo,
+  check_params_gen two s ps ai vi ao vo = Ok tt ->
   let ai' := ai || existsb (fun p => negb (mp_out p) && is_objarr (abs_param p)) ps in
   let vi' := vi || existsb (fun p => negb (mp_out p) && is_objval (abs_param p)) ps in
   let ao' := ao || existsb (fun p => mp_out p && is_objarr (abs_param p)) ps in
@@ -81,16 +81,17 @@ Lemma check_params_spec ps : forall ai vi ao vo,
                     match rp_kind p, rp_arr p with KObjStruct, Some _ => false | _, _ => true end)
           (map abs_param ps) = true.
 Proof.
-  induction ps as [|p ps IH]; intros ai vi ao vo H; cbn [check_params] in H.
+  induction ps as [|p ps IH]; intros ai vi ao vo H; cbn [check_params_gen] in H.
   - cbn. rewrite !orb_false_r.
     destruct ((ai && vi) || (ao && vo)); [discriminate|]. repeat split.
-  - destruct (check_param p) as [[a v]| | |] eqn:EP; cbn in H; try discriminate.
-    destruct (check_param_flags _ _ _ EP) as [-> ->].
-    pose proof (check_param_unbounded _ _ EP) as U.
-    pose proof (check_param_bounded_data _ _ EP) as B.
+  - destruct (check_param_gen s p) as [[a v]| | |] eqn:EP; cbn [obind] in H; try discriminate.
+    destruct (check_param_flags _ _ _ _ EP) as [-> ->].
+    pose proof (check_param_unbounded _ _ _ EP) as U.
+    pose proof (check_param_bounded_data _ _ _ EP) as B.
     cbn [existsb map forallb rule_no_unbounded_objarr].
+    destruct (two && is_objarr (abs_param p) && (if mp_out p then ao else ai)); [discriminate|].
     destruct (mp_out p) eqn:EO.
-    + pose proof (check_param_out_objstruct _ _ EP EO) as S.
+    + pose proof (check_param_out_objstruct _ _ _ EP EO) as S.
       destruct (IH _ _ _ _ H) as (I1 & I2 & I3 & I4). cbn [negb andb orb].
       unfold rule_no_unbounded_objarr in I2.
       rewrite U, B, I2, I3, I4. cbn [abs_param rp_out]. rewrite EO. cbn [negb orb]. rewrite S.
@@ -101,6 +102,66 @@ Proof.
       repeat split. rewrite <- I1. now rewrite !orb_assoc.
 Qed.
 
+(* the repaired verifier: at most one object array per direction *)
+Definition cnt_dir (d : bool) (ps : list mparam) : nat :=
+  List.length (filter (fun p => Bool.eqb (rp_out p) d && is_objarr p) (map abs_param ps)).
+Definition b2n (b : bool) : nat := if b then 1%nat else 0%nat.
+
+Lemma cnt_dir_cons d p ps :
+  cnt_dir d (p :: ps) = (b2n (Bool.eqb (mp_out p) d && is_objarr (abs_param p)) + cnt_dir d ps)%nat.
+Proof.
+  unfold cnt_dir. cbn [map filter]. cbn [abs_param rp_out].
+  destruct (Bool.eqb (mp_out p) d && is_objarr _); reflexivity.
+Qed.
+
+Lemma check_params_two s ps : forall ai vi ao vo,
+  check_params_gen true s ps ai vi ao vo = Ok tt ->
+  (b2n ai + cnt_dir false ps <= 1)%nat /\ (b2n ao + cnt_dir true ps <= 1)%nat.
+Proof.
+  induction ps as [|p ps IH]; intros ai vi ao vo H; cbn [check_params_gen] in H.
+  - unfold cnt_dir. cbn. destruct ai, ao; cbn; split; auto.
+  - destruct (check_param_gen s p) as [[a v]| | |] eqn:EP; cbn [obind] in H; try discriminate.
+    destruct (check_param_flags _ _ _ _ EP) as [-> ->].
+    rewrite !cnt_dir_cons. cbn [andb] in H.
+    destruct (mp_out p) eqn:EO; cbn [Bool.eqb].
+    + destruct (is_objarr (abs_param p)) eqn:EA; cbn [andb] in H.
+      * destruct ao; [discriminate|]. destruct (IH _ _ _ _ H) as [I1 I2]. cbn [orb b2n andb] in *. split; [exact I1 | exact I2].
+      * destruct (IH _ _ _ _ H) as [I1 I2]. rewrite orb_false_r in I2. cbn [andb b2n]. split; [exact I1 | exact I2].
+    + destruct (is_objarr (abs_param p)) eqn:EA; cbn [andb] in H.
+      * destruct ai; [discriminate|]. destruct (IH _ _ _ _ H) as [I1 I2]. cbn [orb b2n andb] in *. split; [exact I1 | exact I2].
+      * destruct (IH _ _ _ _ H) as [I1 I2]. rewrite orb_false_r in I1. cbn [andb b2n]. split; [exact I1 | exact I2].
+Qed.
+
+Theorem check_params_no_two_objarr s ps :
+  check_params_gen true s ps false false false false = Ok tt -> rule_no_two_objarr (map abs_param ps) = true.
+Proof.
+  intro H. destruct (check_params_two _ _ _ _ _ _ H) as [I1 I2]. cbn [b2n plus] in I1, I2.
+  unfold rule_no_two_objarr. cbn [forallb]. fold (cnt_dir false ps). fold (cnt_dir true ps).
+  rewrite andb_true_r. apply andb_true_intro. split; apply N.leb_le; lia.
+Qed.
+
+(* the repaired verifier: no array of a struct that contains an object, in either direction *)
+Lemma check_param_objstruct_array p r : check_param_gen true p = Ok r ->
+  (match rp_kind (abs_param p), rp_arr (abs_param p) with KObjStruct, Some _ => false | _, _ => true end) = true.
+Proof.
+  unfold check_param_gen, abs_param, kind_of. cbn [rp_kind rp_arr]. intros H.
+  destruct (mp_shape p) as [|cnt]; [destruct (mp_ty p); try reflexivity; now destruct (contains_interfaces _)|].
+  destruct (mp_ty p) as [|q|n|sn fs]; cbn [is_miface is_struct_or_prim is_mstruct andb orb] in *; try reflexivity.
+  destruct (contains_interfaces (MStruct sn fs)); [|reflexivity].
+  destruct (mp_out p); cbn in H; discriminate.
+Qed.
+
+Theorem check_params_no_array_of_objstruct two ps : forall ai vi ao vo,
+  check_params_gen two true ps ai vi ao vo = Ok tt -> rule_no_array_of_objstruct (map abs_param ps) = true.
+Proof.
+  unfold rule_no_array_of_objstruct.
+  induction ps as [|p ps IH]; intros ai vi ao vo H; cbn [check_params_gen] in H; [reflexivity|].
+  destruct (check_param_gen true p) as [[a v]| | |] eqn:EP; cbn [obind] in H; try discriminate.
+  cbn [map forallb]. rewrite (check_param_objstruct_array _ _ EP). cbn [andb].
+  destruct (two && a && (if mp_out p then ao else ai)); [discriminate|].
+  destruct (mp_out p); eapply IH; exact H.
+Qed.
+
 Lemma existsb_map' {A B} (g : B -> bool) (h : A -> B) l :
   existsb g (map h l) = existsb (fun x => g (h x)) l.
 Proof. induction l; cbn; [reflexivity | now rewrite IHl]. Qed.
@@ -108,8 +169,8 @@ Lemma existsb_ext' {A} (f g : A -> bool) l : (forall x, f x = g x) -> existsb f 
 Proof. intro H. induction l; cbn; [reflexivity | now rewrite H, IHl]. Qed.
 
 (* the rules that acceptance of a parameter list by the interface verifier implies *)
-Theorem check_params_sound ps :
-  check_params ps false false false false = Ok tt ->
+Theorem check_params_sound_gen two s ps :
+  check_params_gen two s ps false false false false = Ok tt ->
   rule_no_unbounded_objarr (map abs_param ps) = true /\
   rule_no_objarr_with_single (map abs_param ps) = true /\
   forallb (fun p => match rp_kind p, rp_arr p with KData, Some (Some _) => false | _, _ => true end)
@@ -118,7 +179,7 @@ Theorem check_params_sound ps :
                     match rp_kind p, rp_arr p with KObjStruct, Some _ => false | _, _ => true end)
           (map abs_param ps) = true.
 Proof.
-  intro H. destruct (check_params_spec ps _ _ _ _ H) as (I1 & I2 & I3 & I4).
+  intro H. destruct (check_params_spec _ _ ps _ _ _ _ H) as (I1 & I2 & I3 & I4).
   cbn [orb] in I1. repeat split; try assumption.
   unfold rule_no_objarr_with_single. cbn [forallb]. rewrite andb_true_r.
   apply orb_false_iff in I1. destruct I1 as [A B].
@@ -135,6 +196,25 @@ Proof.
                         (fun p => mp_out p && is_objval (abs_param p)) ps)
     by (intro x; cbn [abs_param rp_out]; destruct (mp_out x); reflexivity).
   rewrite A, B. reflexivity.
+Qed.
+
+Definition check_params_sound ps : check_params ps false false false false = Ok tt -> _ :=
+  check_params_sound_gen verifier_rejects_second_objarr verifier_small_objstruct_in_array ps.
+
+(* all five parameter-list rules of the specification, for the repaired verifier *)
+Theorem check_params_all_rules ps :
+  check_params_gen true true ps false false false false = Ok tt ->
+  forallb (fun b => b) (params_rules (map abs_param ps)) = true.
+Proof.
+  intro H. destruct (check_params_sound_gen _ _ _ H) as (R1 & R2 & R3 & R4).
+  pose proof (check_params_no_two_objarr _ _ H) as R5.
+  pose proof (check_params_no_array_of_objstruct _ _ _ _ _ _ H) as R6.
+  unfold params_rules. cbn [forallb]. rewrite R1, R2, R5, R6. cbn [andb]. rewrite andb_true_r.
+  unfold rule_no_bounded_data_array. unfold rule_no_array_of_objstruct in R6.
+  clear R1 R2 R4 R5 H. revert R3 R6. induction (map abs_param ps) as [|q qs IH]; cbn [forallb]; [reflexivity|].
+  intros A B. apply andb_prop in A. apply andb_prop in B. destruct A as [A1 A2], B as [B1 B2].
+  rewrite (IH A2 B2), andb_true_r.
+  destruct (rp_kind q), (rp_arr q) as [[c|]|]; try reflexivity; try discriminate.
 Qed.
 
 (* ---- lifting to the front end ---- *)
@@ -197,6 +277,25 @@ Proof.
   repeat split; try assumption; apply check_params_sound; now apply P.
 Qed.
 
+(* with the repaired verifier: all five parameter-list rules of the specification *)
+Theorem front_cli_param_rules md files mir top :
+  verifier_rejects_second_objarr = true -> verifier_small_objstruct_in_array = true ->
+  front Cli md files = Ok mir -> In (MTIface top) mir ->
+  forall f, In f (chain_funcs top) -> forallb (fun b => b) (params_rules (map abs_param (mf_params f))) = true.
+Proof.
+  intros F1 F2. unfold front, front_gen. destruct files as [|main rest]; [discriminate|]. intros H Hin.
+  destruct (gather_files st_empty (main :: rest)) as [st| | |]; cbn in H; try discriminate.
+  destruct (functions_pass main) as [[]| | |]; cbn in H; try discriminate.
+  destruct (cycles_pass st main) as [order| | |]; cbn in H; try discriminate.
+  destruct (verify_structs md st [] order) as [store| | |]; cbn in H; try discriminate.
+  destruct (to_mir st (a_nodes main)) as [m| | |]; cbn in H; try discriminate.
+  destruct (interface_verifier m) as [[]| | |] eqn:EV; cbn in H; try discriminate.
+  inversion H; subst m.
+  destruct (verify_iface_sound _ (interface_verifier_sound _ EV _ Hin)) as (N1 & N2 & P).
+  intros f Hf. specialize (P f Hf). unfold check_params in P. rewrite F1, F2 in P.
+  now apply check_params_all_rules.
+Qed.
+
 (* duplicate parameters: main-file interfaces *)
 Theorem front_params_unique e md files main rest mir :
   files = main :: rest -> front e md files = Ok mir ->
@@ -228,17 +327,17 @@ Qed.
 (* ---- machine-checked witnesses for what is *not* enforced ---- *)
 Open Scope string_scope.
 
-(* F7: two object arrays in one direction *)
-Example two_objarr_accepted :
+(* F7: two object arrays in one direction were accepted by the pinned upstream verifier *)
+Example two_objarr_accepted_upstream :
   let ps := [mkMP false (MIface None) (PArr (Some 2%N)) "a"; mkMP false (MIface None) (PArr (Some 2%N)) "b"] in
-  check_params ps false false false false = Ok tt /\ rule_no_two_objarr (map abs_param ps) = false.
+  check_params_gen false false ps false false false false = Ok tt /\ rule_no_two_objarr (map abs_param ps) = false.
 Proof. split; vm_compute; reflexivity. Qed.
 
-(* F8: input array of a small object-bearing struct *)
-Example in_array_small_objstruct_accepted :
+(* F8: an input array of a small object-bearing struct was accepted by the pinned upstream verifier *)
+Example in_array_small_objstruct_accepted_upstream :
   let s := MStruct "S" [("o", MIface None, 1%N)] in
   let ps := [mkMP false s (PArr None) "a"] in
-  check_params ps false false false false = Ok tt /\ rule_no_array_of_objstruct (map abs_param ps) = false.
+  check_params_gen false false ps false false false false = Ok tt /\ rule_no_array_of_objstruct (map abs_param ps) = false.
 Proof. split; vm_compute; reflexivity. Qed.
 
 (* F9: the pinned upstream library entry point never ran the interface verifier *)
